@@ -314,3 +314,165 @@ Section Verify.
     reflexivity.
   Qed.
 End Verify.
+
+(* ------------------------------------------------------------------ *)
+(* Algorithm 8 with tr and mu, Algorithm 3                              *)
+(* ------------------------------------------------------------------ *)
+Section VerifyLayers.
+  Variables H G : bytes -> nat -> bytes.
+  Hypothesis HH : xof_laws H.
+  Hypothesis HG : xof_laws G.
+  Variable P : params.
+  Hypothesis HP : params_ok P.
+
+  Lemma pkDecode_tr pkb pk : pkDecode H P pkb = Some pk -> pk_tr pk = H pkb 64%nat.
+  Proof. unfold pkDecode. destruct (negb _); [discriminate|]. intros E. inversion E. reflexivity. Qed.
+
+  Theorem Verify_internal_eq pkb pk Mp sigma :
+    pkDecode H P pkb = Some pk -> length sigma = signatureLength P ->
+    verifyInternal G H P pk Mp sigma = FIPS.Verify_internal H G (fips_of P) 672 1024 pkb Mp sigma.
+  Proof.
+    intros D Ls. unfold verifyInternal, FIPS.Verify_internal, computeMu. rewrite (pkDecode_tr pkb pk D).
+    apply (Verify_mu_eq H G HH HG P HP); assumption.
+  Qed.
+
+  Lemma format_message_eq M ctx : (length ctx <= 255)%nat -> FIPS.format_message M ctx = formatMsg M ctx.
+  Proof.
+    intros L. unfold FIPS.format_message, formatMsg. rewrite (IntegerToBytes_1 0) by lia.
+    rewrite byteN_IntegerToBytes. unfold byteN. rewrite N.mod_small by lia. reflexivity.
+  Qed.
+
+  Theorem Verify_eq pkb pk M sigma ctx :
+    pkDecode H P pkb = Some pk -> length sigma = signatureLength P ->
+    verify G H P pk M sigma ctx = FIPS.Verify H G (fips_of P) 672 1024 pkb M sigma ctx.
+  Proof.
+    intros D Ls. unfold verify, FIPS.Verify. destruct (Nat.ltb 255 (length ctx)) eqn:E; [reflexivity|].
+    apply Nat.ltb_ge in E. rewrite format_message_eq by exact E. apply Verify_internal_eq; assumption.
+  Qed.
+
+  (* the Tink verifier of a key without output prefix is Algorithm 3 with the empty context *)
+  Theorem tinkVerify_eq pkb sigma data : length pkb = publicKeyLength P -> length sigma = signatureLength P ->
+    tinkVerify G H P [] pkb sigma data = FIPS.Verify H G (fips_of P) 672 1024 pkb data sigma [].
+  Proof.
+    intros Lp Ls. unfold tinkVerify. rewrite (pkDecode_eq H P pkb Lp). cbn [length firstn beq skipn].
+    rewrite (Verify_internal_eq pkb _ _ sigma (pkDecode_eq H P pkb Lp) Ls).
+    unfold FIPS.Verify. cbn [length Nat.ltb Nat.leb]. rewrite format_message_eq by (cbn; lia). reflexivity.
+  Qed.
+End VerifyLayers.
+
+(* ------------------------------------------------------------------ *)
+(* Algorithm 6                                                          *)
+(* ------------------------------------------------------------------ *)
+Lemma AddVector_signed n v w : cvec n v -> length w = n -> Forall (fun p => length p = 256%nat) w ->
+  FIPS.AddVector v w = vadd v (map (map modq) w).
+Proof.
+  intros [Lv Fv] Lw Fw. unfold FIPS.AddVector, vadd. rewrite zip_with_map2.
+  rewrite <- (map_id v) at 2. rewrite (map2_map padd (fun x => x) (map modq)).
+  apply (map2_ext_F cpoly (fun p => length p = 256%nat)); auto.
+  intros a b [La Ca] Lb. unfold FIPS.AddPoly, padd. rewrite zip_with_map2.
+  rewrite <- (map_id a) at 2. rewrite (map2_map k_add (fun x => x) modq).
+  apply (map2_ext_F (fun x => 0 <= x < q) (fun _ => True)); [exact Ca | apply Forall_forall; auto|].
+  intros x y Hx _. unfold modq. rewrite k_add_spec by (auto using mod_q_range). rewrite Zplus_mod_idemp_r. reflexivity.
+Qed.
+
+Lemma Power2Round_t0_range r : -4095 <= snd (FIPS.Power2Round r) <= 4096.
+Proof.
+  unfold FIPS.Power2Round. cbv zeta. cbn [snd]. unfold FIPS.modpm. change (2 ^ FIPS.d) with 8192. change (8192 / 2) with 4096.
+  pose proof (Z.mod_pos_bound (r mod FIPS.q) 8192 ltac:(lia)).
+  destruct (_ <=? 4096) eqn:E; [apply Z.leb_le in E | apply Z.leb_gt in E]; lia.
+Qed.
+
+Section KeyGen.
+  Variables H G : bytes -> nat -> bytes.
+  Hypothesis HH : xof_laws H.
+  Hypothesis HG : xof_laws G.
+  Variable P : params.
+  Hypothesis HP : params_ok P.
+
+  (* shapes of the standard's ExpandS output *)
+  Lemma RejBounded_shape rho p : FIPS.RejBoundedPoly H (fips_of P) 1536 rho = Some p ->
+    length p = 256%nat /\ Forall (fun c => - p_eta P <= c <= p_eta P) p.
+  Proof.
+    intros E. split; [|exact (RejBoundedPoly_range H (fips_of P) 1536 rho p E)].
+    pose proof (RejBoundedPoly_eq H HH P rho) as M. rewrite E in M. cbn [option_map] in M.
+    destruct (params_ok_facts P HP) as [_ _ _ Heta _ _].
+    apply (rejectBounded_props H _ _ _ Heta) in M. destruct M as [[L _] _]. rewrite map_length in L. exact L.
+  Qed.
+
+  Lemma ExpandS_shape rho s1 s2 : FIPS.ExpandS H (fips_of P) 1536 rho = Some (s1, s2) ->
+    (length s1 = p_l P /\ sranges (- p_eta P) (p_eta P) s1) /\ (length s2 = p_k P /\ sranges (- p_eta P) (p_eta P) s2).
+  Proof.
+    unfold FIPS.ExpandS. rewrite !array_opt_oseq. cbn [FIPS.k FIPS.l fips_of].
+    destruct (oseq (map _ (seq 0 (p_l P)))) as [a|] eqn:E1; [|discriminate].
+    destruct (oseq (map _ (seq 0 (p_k P)))) as [b|] eqn:E2; [|discriminate].
+    intros E. inversion E; subst a b; clear E.
+    apply oseq_map_inv in E1, E2. destruct E1 as [L1 F1]. destruct E2 as [L2 F2]. rewrite seq_length in L1, L2.
+    split; (split; [assumption|]).
+    - eapply Forall_impl; [|exact F1]. intros p (i & _ & Hp). apply RejBounded_shape in Hp. exact Hp.
+    - eapply Forall_impl; [|exact F2]. intros p (i & _ & Hp). apply RejBounded_shape in Hp. exact Hp.
+  Qed.
+
+  Lemma sranges_lengths B1 B2 v : sranges B1 B2 v -> Forall (fun p => length p = 256%nat) v.
+  Proof. intros R. eapply Forall_impl; [|exact R]. intros p [Lp _]. exact Lp. Qed.
+
+  Theorem KeyGen_internal_eq seed :
+    option_map (fun '(pk, sk) => (pkEncode pk, skEncode P sk)) (keyGenInternal G H P seed) =
+    FIPS.KeyGen_internal H G (fips_of P) 672 1536 seed.
+  Proof.
+    pose proof (params_ok_facts P HP) as PF. pose proof (params_ok_ffacts P HP) as FF.
+    unfold keyGenInternal, FIPS.KeyGen_internal. cbv zeta. cbn [FIPS.k FIPS.l fips_of].
+    rewrite !byteN_IntegerToBytes. cbn [app].
+    set (Hout := H (seed ++ [byteN (p_k P); byteN (p_l P)]) 128%nat).
+    assert (LH : length Hout = 128%nat) by apply (xl_len H HH).
+    change (FIPS.sl Hout 0 32) with (firstn 32 Hout).
+    change (FIPS.sl Hout 32 96) with (firstn 64 (skipn 32 Hout)).
+    change (FIPS.sl Hout 96 128) with (firstn 32 (skipn 96 Hout)).
+    set (rho := firstn 32 Hout). set (rhop := firstn 64 (skipn 32 Hout)). set (K := firstn 32 (skipn 96 Hout)).
+    assert (Lrho : length rho = 32%nat) by (unfold rho; rewrite firstn_length; lia).
+    assert (LK : length K = 32%nat) by (unfold K; rewrite firstn_length, skipn_length; lia).
+    rewrite (ExpandA_eq G HG P rho).
+    destruct (FIPS.ExpandA G (fips_of P) 672 rho) as [Ah|] eqn:EA; cbn [obind FIPS.obind option_map]; [|reflexivity].
+    assert (HA : cmat (p_k P) (p_l P) Ah) by (apply (expandA_cmat G P rho); rewrite ExpandA_eq by exact HG; exact EA).
+    rewrite (ExpandS_eq H HH P rhop) by apply FF.
+    destruct (FIPS.ExpandS H (fips_of P) 1536 rhop) as [[s1 s2]|] eqn:ES; cbn [obind FIPS.obind option_map]; [|reflexivity].
+    destruct (ExpandS_shape rhop s1 s2 ES) as [[L1 R1] [L2 R2]].
+    pose proof (sranges_lengths _ _ _ R1) as F1. pose proof (sranges_lengths _ _ _ R2) as F2.
+    assert (Hs1 : cvec (p_l P) (map (map modq) s1)) by (apply cvec_modq; auto).
+    assert (Hs2 : cvec (p_k P) (map (map modq) s2)) by (apply cvec_modq; auto).
+    rewrite (vNTT_eq s1 F1).
+    assert (Hm : cvec (p_k P) (mmul Ah (vntt (map (map modq) s1))))
+      by (apply (cvec_mmul _ (p_l P)); [exact HA | apply cvec_vntt; exact Hs1]).
+    rewrite (MatrixVectorNTT_eq (p_k P) (p_l P) Ah _ HA) by (apply cvec_vntt; exact Hs1).
+    rewrite (vNTT_inv_eq (p_k P)) by exact Hm.
+    rewrite (AddVector_signed (p_k P)) by (auto; apply cvec_vintt; exact Hm).
+    set (t := vadd (vintt (mmul Ah (vntt (map (map modq) s1)))) (map (map modq) s2)).
+    assert (Ht : cvec (p_k P) t) by (unfold t; apply cvec_vadd; [apply cvec_vintt; exact Hm | exact Hs2]).
+    (* Power2Round *)
+    assert (E1 : map fst (map ppower2Round t) = map (map (fun r => fst (FIPS.Power2Round r))) t).
+    { rewrite map_map. apply map_ext_in. intros p Hp. unfold ppower2Round. cbn [fst]. rewrite map_map.
+      apply map_ext_in. intros r Hr. rewrite Power2Round_eq; [reflexivity|].
+      pose proof (cvec_canon _ _ Ht) as C. rewrite Forall_forall in C. specialize (C p Hp). unfold canon in C. rewrite Forall_forall in C. auto. }
+    assert (E0 : map snd (map ppower2Round t) = map (map modq) (map (map (fun r => snd (FIPS.Power2Round r))) t)).
+    { rewrite !map_map. apply map_ext_in. intros p Hp. unfold ppower2Round. cbn [snd]. rewrite !map_map.
+      apply map_ext_in. intros r Hr. rewrite Power2Round_eq; [reflexivity|].
+      pose proof (cvec_canon _ _ Ht) as C. rewrite Forall_forall in C. specialize (C p Hp). unfold canon in C. rewrite Forall_forall in C. auto. }
+    rewrite E1, E0.
+    set (t1 := map (map (fun r => fst (FIPS.Power2Round r))) t).
+    set (t0 := map (map (fun r => snd (FIPS.Power2Round r))) t).
+    assert (Lt : length t = p_k P /\ Forall (fun p => length p = 256%nat) t).
+    { destruct Ht as [Lt Ft]. split; [exact Lt|]. eapply Forall_impl; [|exact Ft]. intros p [Lp _]. exact Lp. }
+    destruct Lt as [Lt Ft].
+    assert (Lt1 : length t1 = p_k P /\ Forall (fun p => length p = 256%nat) t1).
+    { unfold t1. rewrite map_length. split; [exact Lt|]. apply Forall_map. eapply Forall_impl; [|exact Ft]. intros p Lp. rewrite map_length. exact Lp. }
+    destruct Lt1 as [Lt1 Ft1].
+    assert (R0 : length t0 = p_k P /\ sranges (-4095) 4096 t0).
+    { unfold t0. rewrite map_length. split; [exact Lt|]. apply Forall_map. eapply Forall_impl; [|exact Ft]. intros p Lp.
+      split; [rewrite map_length; exact Lp|]. apply Forall_map. apply Forall_forall. intros r _. apply Power2Round_t0_range. }
+    destruct R0 as [Lt0 R0].
+    unfold pkEncode. cbn [pk_rho pk_t1].
+    rewrite <- (pkEncode_eq P rho t1 Lrho Lt1 Ft1).
+    set (pkb := FIPS.pkEncode (fips_of P) rho t1).
+    f_equal. f_equal. symmetry.
+    apply (skEncode_eq P FF); auto. apply (xl_len H HH).
+  Qed.
+End KeyGen.
